@@ -174,3 +174,12 @@ Theorem C19_plain_export_rejected : forall cfg s c rc, In (c, rc) (ctxs s) ->
   (c_state rc <> Paused \/ c_bdone rc = false) -> validate_genesis (export_genesis cfg s) = false.
 Proof. exact GapC19b.C19_plain_export_rejected. Qed.
 Print Assumptions C19_plain_export_rejected.
+
+(* the refunds of the preparation may be made in any order (the code walks the by-binding marker
+   index, the model the request ids): same success, same balances *)
+Theorem C19_refund_order_irrelevant : forall cfg s l', wf_cfg cfg -> Reach cfg s ->
+  Permutation.Permutation (refund_list s ++ earned_list s) l' ->
+  exists s1 s1', pay_all (refund_list s ++ earned_list s) s = Some s1 /\ pay_all l' s = Some s1'
+    /\ forall x, bal s1' x = bal s1 x.
+Proof. exact GapC19b.C19_refund_order_irrelevant. Qed.
+Print Assumptions C19_refund_order_irrelevant.
